@@ -50,12 +50,13 @@ type vC07Helper struct {
 }
 
 type vC07Fam struct {
-	name  string
-	dec   string // decoder name
-	build func(n int) []byte
-	key   string // known-finding key this family is allowed to hit ("" = none)
-	cost  string // name of the step-counting cost model of Proofs/TotalCostDef.v for this decoder ("" = none)
-	costMax int  // largest input size handed to the cost model (0 = 64 KiB)
+	name    string
+	dec     string // decoder name
+	build   func(n int) []byte
+	key     string // known-finding key this family is allowed to hit ("" = none)
+	cost    string // name of the step-counting cost model of Proofs/TotalCostDef.v for this decoder ("" = none)
+	costMax int    // largest input size handed to the cost model (0 = 64 KiB)
+	max     int    // largest input size measured (0 = 1 MiB); for families whose encoding cannot grow further
 }
 
 type vC07Out struct {
@@ -467,8 +468,14 @@ func (dr *vC07Driver) runFam(f *vC07Fam) {
 	var ts []time.Duration
 	var inputs [][]byte
 	var sizes []int
-	for n := 8192; n <= 1<<20; n *= 2 {
-		if n > 65536 && (ts[len(ts)-1] >= 250*time.Millisecond && n == 131072 || ts[len(ts)-1] > 1500*time.Millisecond) {
+	top := f.max
+	if top == 0 {
+		top = 1 << 20
+	}
+	for n := 8192; n <= top; n *= 2 {
+		// beyond 64 KiB only while the criterion can still be decided cheaply: not when 64 KiB already
+		// takes 250 ms (then the first four sizes decide), and not after a run above 400 ms
+		if n > 65536 && (ts[len(ts)-1] >= 250*time.Millisecond && n == 131072 || ts[len(ts)-1] > 400*time.Millisecond) {
 			break
 		}
 		b := f.build(n)
@@ -483,7 +490,7 @@ func (dr *vC07Driver) runFam(f *vC07Fam) {
 			return
 		}
 		reps := 5
-		if n > 262144 {
+		if n > 65536 {
 			reps = 3
 		}
 		sizes = append(sizes, n)
